@@ -639,6 +639,12 @@ func (e *ckksEnv) slotCase(level, logSlots int, isNTT bool, iter int, reused *rl
 		if !e.arb {
 			pin = 80
 		}
+		if e.rnd.N(3) == 0 {
+			// the caller's big.Floats carry less precision than the encoder works at (big.NewFloat gives 53 bits): the
+			// values are exact in them, the encoder must round them up to its own precision, not down to theirs
+			pin = eng.Pick(e.rnd, uint(53), uint(32), uint(64))
+			c.Count("ckks_inputs_of_lower_precision_than_the_encoder", 1)
+		}
 		mant = pin
 	}
 	v := e.genVec(s.length, s.pat, exMax, exMin, mant, realOnly)
